@@ -1,6 +1,7 @@
 package props
 
 import (
+	"bytes"
 	"fmt"
 	"os"
 	"strings"
@@ -178,6 +179,26 @@ func needsJSEscape(s string) bool {
 
 var c14rec *recorder
 
+// failedGeneration runs the generator on a bundle it must give up on (functions it does not know, used
+// in the middle of let, param, range and index expressions). Whatever it had written by then must not
+// turn up in a later generation.
+func failedGeneration() {
+	src := "{namespace zz.bad}\n/** @param a */\n{template .t}" +
+		"{let $id: 'id-\"</script>' + zzNoSuchFn($a) + 'tail' /}{$id}" +
+		"{call .u}{param p: 'q\\'' + zzNoSuchFn(1) /}{/call}" +
+		"{foreach $i in range(1 + zzNoSuchFn(2))}{$i}{/foreach}{$a[1 + zzNoSuchFn(3)]}{/template}\n" +
+		"/** @param p */\n{template .u}{$p}{/template}\n"
+	cb, err, pn := compileBundle([]string{"bad.soy"}, []string{src}, nil)
+	if err != nil || pn != nil {
+		return
+	}
+	for _, f := range cb.reg.SoyFiles {
+		var buf bytes.Buffer
+		catch(func() { soyjs.Write(&buf, f, soyjs.Options{}) })
+		catch(func() { soyjs.Write(&buf, f, soyjs.Options{Formatter: &soyjs.ES6Formatter{}}) })
+	}
+}
+
 // checkC14Bundle is the structural half of the property on a whole generated bundle.
 func checkC14Bundle(pc *gen.ProgCase) Verdict {
 	names, srcs := gen.Sources(&pc.Prog)
@@ -244,6 +265,9 @@ func checkC14Bundle(pc *gen.ProgCase) Verdict {
 }
 
 func checkC14(c C14Case) Verdict {
+	if hashCase(c)%2 == 0 {
+		failedGeneration()
+	}
 	if c.Prog != nil {
 		return checkC14Bundle(c.Prog)
 	}
